@@ -3,7 +3,7 @@
 From PV Require Import Base.Prelude Base.Slice Model.EncodeBase Model.Encode Model.EncodeCompose Model.EncodeDHCP
      Spec.EncodeRef Spec.EncodeRefDHCP
      Proofs.Encode Proofs.EncodeIP4 Proofs.EncodeEther Proofs.EncodeMisc Proofs.EncodeCompose Proofs.EncodeDHCP
-     Proofs.EncodeDNS Proofs.EncodeIP6Frame Proofs.EncodeRound3 Proofs.EncodeReuse.
+     Proofs.EncodeDNS Proofs.EncodeIP6Frame Proofs.EncodeRound3 Proofs.EncodeReuse Proofs.EncodeReuse2.
 Open Scope N_scope.
 
 (* EncodeEther: for every buffer of capacity >= 14 (any length, any contents), every
@@ -646,3 +646,59 @@ Theorem C03_ip6_set_payload_idempotent_shape : forall x4 x5 x6 hop s d rest L b 
 Proof. exact ip6_set_payload_idempotent_shape. Qed.
 Print Assumptions C03_ip6_set_payload_idempotent_shape.
 
+
+(* re-use of views, round 7: IP6.AppendPayload on any starting view (a view a previous call returned,
+   longer than the header, any previous header contents) is absolute *)
+Theorem C03_ip6_append_absolute : forall x4 x5 x6 hop s d rest L b nh,
+  length s = 16%nat -> length d = 16%nat -> bytes_ok s -> bytes_ok d -> bytes_ok b ->
+  nh < 256 -> hop < 256 -> (length b <= length rest)%nat -> 40 + N.of_nat (length b) < 65536 ->
+  exists r,
+    ip6_append (mkSlice (ip6_hdr_any x4 x5 x6 hop s d ++ rest) L) b false nh = Ok r /\
+    len r = (40 + length b)%nat /\
+    ip6_decode_lib r = Ok (ip6_expected_view nh hop s d b) /\
+    ref_ip6 (view r) = Some (ip6_expected_ref nh hop s d b).
+Proof. exact ip6_append_absolute. Qed.
+Print Assumptions C03_ip6_append_absolute.
+
+(* Ether.SetPayload on a view of ANY length L over an encoded header: nothing is written, the result has
+   length 14 + n, getters and reference decoder see the header and the n bytes in place, and a second call
+   on the returned view equals the same call on the original one *)
+Theorem C03_ether_set_payload_idempotent_shape : forall dst src ht X L pl,
+  length src = 6%nat -> length dst = 6%nat -> ht < 65536 -> hlen_of_type ht = 14%nat ->
+  (length pl <= length X)%nat -> firstn (length pl) X = pl ->
+  exists r,
+    ether_set_payload (mkSlice (ether_hdr dst src ht ++ X) L) (length pl) = Ok r /\
+    len r = (14 + length pl)%nat /\ arr r = ether_hdr dst src ht ++ X /\
+    ether_dst r = Ok dst /\ ether_src r = Ok src /\ ether_type r = Ok ht /\
+    (pl <> [] -> (w <- ether_payload r ;; Ok (view w))%res = Ok pl) /\
+    ref_ether (view r) = Some {| re_dst := dst; re_src := src; re_type := ht; re_payload := pl |} /\
+    (forall n2, (n2 <= length X)%nat ->
+       ether_set_payload r n2 = ether_set_payload (mkSlice (ether_hdr dst src ht ++ X) L) n2).
+Proof. exact ether_set_payload_idempotent_shape. Qed.
+Print Assumptions C03_ether_set_payload_idempotent_shape.
+
+(* Ether.AppendPayload on a view of any length L >= 14: the result depends only on the payload *)
+Theorem C03_ether_append_absolute : forall dst src ht rest L pl pcap,
+  length src = 6%nat -> length dst = 6%nat -> ht < 65536 -> hlen_of_type ht = 14%nat -> (14 <= L)%nat ->
+  (length pl <= length rest)%nat -> (46 <= length rest)%nat ->
+  exists r,
+    ether_append (mkSlice (ether_hdr dst src ht ++ rest) L) pl pcap = Ok r /\
+    len r = Nat.max 60 (14 + length pl) /\
+    ether_dst r = Ok dst /\ ether_src r = Ok src /\ ether_type r = Ok ht /\
+    (w <- ether_payload r ;; Ok (view w))%res = Ok (pad46 pl) /\
+    ref_ether (view r) = Some {| re_dst := dst; re_src := src; re_type := ht; re_payload := pad46 pl |}.
+Proof. exact ether_append_absolute. Qed.
+Print Assumptions C03_ether_append_absolute.
+
+Example C03_ether_append_absolute_ex :
+  exists r, ether_append (mkSlice (ether_hdr [2;0;0;0;0;9] [2;0;0;0;0;1] 2048 ++ repeat 9 100) 80) [1;2;3] 3 = Ok r /\
+            len r = 60%nat /\ (w <- ether_payload r ;; Ok (view w))%res = Ok (pad46 [1;2;3]).
+Proof. exact ether_append_absolute_ex. Qed.
+Print Assumptions C03_ether_append_absolute_ex.
+
+Example C03_ip6_append_absolute_ex :
+  let s := as16 [254;128;0;0;0;0;0;0;0;0;0;0;0;0;0;1] in
+  exists r, ip6_append (mkSlice (ip6_hdr_any 1 2 3 64 s s ++ repeat 9 100) 77) [1;2;3] false 58 = Ok r /\
+            len r = 43%nat /\ ref_ip6 (view r) = Some (ip6_expected_ref 58 64 s s [1;2;3]).
+Proof. exact ip6_append_absolute_ex. Qed.
+Print Assumptions C03_ip6_append_absolute_ex.
